@@ -19,6 +19,16 @@ NA = {
 }
 
 CHECKS = {
+ "C15": dict(
+   engine="E1 lifecycle + E2 pool simulation + simulated clock",
+   technique="deterministic simulation: advance/take_step histories; real ChainPool on a simulated multiprocessing.Pool under seeded schedules (worker starvation/reuse, stalls, speeds) compared with serial copies; run_for on a simulated clock with slow steps, stalls and forward clock jumps; ParallelTempering.run_for inside the process simulation",
+   text=("Invariants: chain_length grows by exactly m (m x walkers) and equals the number of stored samples and log-probs after "
+         "every op; every chain returned by ChainPool.advance is bit-identical (state digest incl. generator positions) to a "
+         "deep copy advanced serially; run_for never reads the clock more than 1000 times without an evaluation before its "
+         "deadline, does not return before the budget is used up, overshoots by at most about one batch, for 0.2 ms to 10 min "
+         "per evaluation. An evaluation budget per operation turns a non-terminating step into a reported violation."),
+   design_ref="DESIGN.md 3.7",
+   note="Trusted: SimPool implements Pool.map (pickled jobs/results, FIFO queue, results in input order); progress/overshoot thresholds as stated in the evidence assumptions. Known finding F3 (proposal width overflow on flat posteriors) is reported as KNOWN-FINDING."),
  "C03": dict(
    engine="E1 lifecycle + kernel interleaving",
    technique="deterministic simulation: seeded operation histories on real samplers with recording RNG proxies, tail-draw / edge-uniform / exchange faults; groups built from shared input arrays interleaved at every posterior call by the seeded scheduler and compared with solo re-runs",
